@@ -207,7 +207,13 @@ def admitsAll (s : Store) (p : Fn) : List Upvar → Bool
 /-- `varStore.nonLocalVarIndex` for an identifier the checker resolved to the predeclared variable
 `v` (`ti.IsNative()` holds), with `em.fb.fn = f`: the three lookups in the order of the code. A hit
 by *name* among the closure or package variables returns that variable's index — the reference is
-then emitted as whatever variable has that name (recorded in `ref` as the emitted index). -/
+then emitted as whatever variable has that name (recorded in `ref` as the emitted index).
+The package-variable hit returns the index of that global: this is the code for a function that is
+not a closure (`Gen.VarBinding.pkgVarIndexing = .globalIndexOrVarRef`, `packageVarRef` with
+`fn.VarRefs == nil`; in a closure the code now returns an entry of the closure's VarRefs that refers
+to the same global — same variable at run time, other number). With the code's order (`predefined`
+first, `Cfg.Sound.order`) neither by-name branch is reached for a predeclared variable; the branch is
+exercised by `packageVars_first_refuted` only, in a function that is not a closure. -/
 def nonLocalVarIndexFrom (c : Cfg) (s : Store) (f : Fn) (v : String) : List Lookup → Nat × Store
   | [] => (0, s)
   | .predefined :: _ => predefVarIndex c s f v (c.useGlobal v)
